@@ -99,6 +99,13 @@ fn gen(args: &Args, emit: &mut dyn FnMut(Value)) {
             let n = rules.len();
             emit(json!({"rules": rules, "ov": null, "skipped": null, "pseed": k, "pairs": all_pairs(n.min(6))}));
         }
+        for j in c05::hint_prefix_lengths(&h) {
+            // equal-rank groups whose ids agree on / differ at the hinted length (all match orders are tried by `run`)
+            for g in c05::prefix_tie_groups(j) {
+                let rules: Vec<Value> = g.iter().enumerate().map(|(ri, id)| c05::tie_rule(id, ri)).collect();
+                emit(json!({"rules": rules, "ov": null, "skipped": null, "pseed": j, "pairs": all_pairs(g.len())}));
+            }
+        }
         for s in c05::hint_strings(&h) {
             let mut ids = vec![s.clone(), format!("{s}0"), format!("{s}-1"), s.chars().take(s.chars().count().saturating_sub(1)).collect::<String>(), format!("a{s}"), s.to_uppercase()];
             let mut seen: Vec<String> = Vec::new();
@@ -111,6 +118,33 @@ fn gen(args: &Args, emit: &mut dyn FnMut(Value)) {
             }).collect();
             let n = rules.len();
             emit(json!({"rules": rules, "ov": null, "skipped": null, "pseed": 7, "pairs": all_pairs(n)}));
+        }
+    }
+    // fixed family in every run: UUID-shaped ids with long shared prefixes and prefix-related ids under one rank,
+    // each group alone and two groups together under two ranks
+    {
+        let groups = c05::uuid_tie_groups();
+        let all_pairs = |n: usize| -> Vec<Value> { (0..n).flat_map(|i| (0..n).map(move |j| json!([i, j]))).collect() };
+        for g in &groups {
+            let rules: Vec<Value> = g.iter().enumerate().map(|(ri, id)| c05::tie_rule(id, ri)).collect();
+            emit(json!({"rules": rules, "ov": null, "skipped": null, "pseed": 1, "pairs": all_pairs(g.len())}));
+        }
+        for w in groups.windows(2) {
+            let mut ids: Vec<(String, u64)> = Vec::new();
+            for (gi, g) in w.iter().enumerate() {
+                for id in g {
+                    if !ids.iter().any(|(x, _)| x == id) {
+                        ids.push((id.clone(), 1 + gi as u64));
+                    }
+                }
+            }
+            let rules: Vec<Value> = ids.iter().enumerate().map(|(ri, (id, rank))| {
+                let mut r = c05::tie_rule(id, ri);
+                r["rank"] = json!(rank);
+                r
+            }).collect();
+            let n = rules.len();
+            emit(json!({"rules": rules, "ov": null, "skipped": null, "pseed": 2, "pairs": all_pairs(n)}));
         }
     }
     // marker / variable family (review C11-1): substitution is outside the model; implementation-only oracles
